@@ -1,7 +1,9 @@
 (* C20 - Raising the fuzz limit never breaks or changes a push that already succeeded.
    Push level (C20_push): on the L3 model, a push that applies its whole range with limit F leaves the same file
-   system and the same exit status with every larger limit - for every configuration with backup mode never or
-   onfail (with `always` the backup phase also walks the reports, whose recorded limit differs: left to the runs).
+   system and the same exit status with every larger limit - for every configuration, every backup mode
+   (C20_push_every_backup_mode: with `always` the backup phase walks the recorded reports again, which differ in the
+   limit they record and, for creations/deletions, in the level field of their hunk report; an undo reads neither:
+   FuzzBackups.v).
    File-patch level: if FilePatch::apply with limit F applied every hunk, then with every limit
    F' >= F it produces the same file (content, existence, permissions), the same hunk reports and
    the same undo information.  No well-formedness needed: the statement is about the loop structure. *)
@@ -64,4 +66,24 @@ Example C20_push_witness :
   snd (cmd_push (c20_cfg 0) c20_db GAll c20_fs) = ROk false /\
   snd (cmd_push (c20_cfg 1) c20_db GAll c20_fs) = ROk true /\
   cmd_push (c20_cfg 3) c20_db GAll c20_fs = cmd_push (c20_cfg 1) c20_db GAll c20_fs.
+Proof. vm_compute. auto. Qed.
+
+(* ... and for every backup mode: the reports a run with a larger limit records differ from those of the run with the
+   smaller one only in what an undo does not read, so the backup phase of `--backup always` writes the same files *)
+From RQ Require Import FuzzBackups.
+Theorem C20_push_every_backup_mode :
+  forall cfg db g fs fs' F',
+  (c_fuzz cfg <= F')%nat ->
+  cmd_push cfg db g fs = (fs', ROk true) ->
+  cmd_push (with_fuzz cfg F') db g fs = (fs', ROk true).
+Proof. exact push_fuzz_mono_all. Qed.
+Print Assumptions C20_push_every_backup_mode.
+
+(* non-vacuity with --backup always: the same push, backups written, limits 1 and 3 *)
+Definition c20_cfg_always (F : nat) : config :=
+  {| c_fuzz := F; c_backup := Params.Always; c_backup_count := BAll; c_dry_run := false; c_default_mode := 420%N; c_preload := false |}.
+Example C20_push_always_witness :
+  snd (cmd_push (c20_cfg_always 1) c20_db GAll c20_fs) = ROk true /\
+  cmd_push (c20_cfg_always 3) c20_db GAll c20_fs = cmd_push (c20_cfg_always 1) c20_db GAll c20_fs /\
+  List.length (fs_files (fst (cmd_push (c20_cfg_always 1) c20_db GAll c20_fs))) = 4%nat.
 Proof. vm_compute. auto. Qed.
